@@ -34,7 +34,7 @@ def gen_nests(ck: Check):
             yield f"chain{d}", chain(spec)
     kinds = L.REPEATING + L.PLAIN
     d = depth_full + 1
-    per_shape = 2 if ck.quick else 3
+    per_shape = 2
     for shape in itertools.product(kinds, repeat=d):
         for _ in range(per_shape):
             spec = [(k, rng.choice(LENGTHS[1:] if rng.random() < 0.8 else LENGTHS) if k in L.REPEATING else None) for k in shape]
@@ -51,7 +51,7 @@ def gen_nests(ck: Check):
                 out.append((k, rng.choice(LENGTHS), tree(depth + 1)) if k in L.REPEATING else (k, tree(depth + 1)))
         return out
 
-    for _ in range(100 if ck.quick else 1500):
+    for _ in range(100 if ck.quick else 1000):
         yield "tree", tree(0)
 
 
